@@ -83,3 +83,44 @@ def replay_file(path, repo, verif):
         return 1
     print('not reproduced on the current tree')
     return 0
+
+
+PROACTIVE = {
+    'C15': [['fmt-search', '7', '{seed}']],
+    'C13': [['fmt-search', '6', '{seed}'], ['c13-primnames']],
+    'C08': [['c08-reach'], ['c08-compactas']],
+    'C10': [['c10-sanity'], ['c10-resolve']],
+    'C11': [['c11-contains']],
+    'C12': [['c12-primex', '2000']],
+}
+
+
+def proactive(pid, P, repo, verif, seed, known_input_ids):
+    """Thorough tier: run the concrete oracles although nothing failed.  Reported, never proof; a failing input that
+    is not a recorded known finding is a disagreement between oracle and proofs (exit 2, see main)."""
+    tool = build_tool(repo, verif)
+    runs, dis = [], []
+    for a in PROACTIVE.get(pid, []):
+        a = [x.replace('{seed}', str(seed)) for x in a]
+        if pid == 'C12':
+            # one run per primitive so that the three known findings do not mask the others
+            for i in range(15):
+                try:
+                    rc, js = _run(tool, a + [str(i)], 1500)
+                except subprocess.TimeoutExpired:
+                    runs.append({'cmd': ' '.join(a + [str(i)]), 'result': 'timeout'})
+                    continue
+                iid = 'c12-primex:%s' % js.get('input') if js.get('found') else None
+                runs.append({'cmd': ' '.join(a + [str(i)]), 'tried': js.get('tried'), 'found': bool(js.get('found')), 'known': iid in known_input_ids if iid else None})
+                if js.get('found') and iid not in known_input_ids:
+                    dis.append({'cmd': ' '.join(a + [str(i)]), 'input': js.get('input'), 'violations': js.get('violations')})
+            continue
+        try:
+            rc, js = _run(tool, a, 3000)
+        except subprocess.TimeoutExpired:
+            runs.append({'cmd': ' '.join(a), 'result': 'timeout'})
+            continue
+        runs.append({'cmd': ' '.join(a), 'tried': js.get('tried'), 'found': bool(js.get('found'))})
+        if js.get('found'):
+            dis.append({'cmd': ' '.join(a), 'input': js.get('input'), 'violations': js.get('violations')})
+    return {'note': 'concrete oracle on the real crates, run proactively; an aid, not proof', 'runs': runs, 'disagreements': dis}
